@@ -86,10 +86,6 @@ type World struct {
 	// wall-clock time: the harness's own ledger of the Lastseen it has given to pooled records (Unix seconds, as the pool
 	// file stores them). A record not in here was last seen "now" (entered the pool or was announced again during this run).
 	old map[[32]byte]int64
-
-	conf    map[string]uint64 // confirmedSet's cache
-	confTx  map[string]bool
-	confKey string
 }
 
 var hungOp = make(chan string, 1)
@@ -679,7 +675,6 @@ func (w *World) chainEvent(kind string, f func()) {
 	f()
 	if w.midProb > 0 && !w.propFailed && w.gm.Intn(100) < w.midProb {
 		w.r.Hit("mid-commit:listing-after-block-" + kind)
-		w.confKey = ""
 		w.mid = kind
 		w.verify()
 		w.mid = ""
@@ -698,7 +693,6 @@ func (w *World) flushPend() {
 
 // submitBlock = client/main.go LocalAcceptBlock: BlockCommitInProgress around the commit, then common.Last.
 func (w *World) submitBlock(raw []byte) (res *chainkit.Result, pan string, hung bool) {
-	w.confKey = "" // the confirmed set is read again from the UTXO db after every block
 	pan, hung = w.guarded("CommitBlock", func() {
 		txpool.BlockCommitInProgress(true)
 		w.inCommit = true
@@ -707,7 +701,6 @@ func (w *World) submitBlock(raw []byte) (res *chainkit.Result, pan string, hung 
 		txpool.BlockCommitInProgress(false)
 	})
 	w.inCommit = false
-	w.confKey = ""
 	return
 }
 
@@ -772,7 +765,6 @@ func (w *World) undoLast(slow bool) bool {
 	}
 	uh := w.k.Ch.LastBlock().Height
 	w.pendOps = []func() string{func() string { return fmt.Sprintf("undo %d %d", uh, common.MinFeePerKB()) }}
-	w.confKey = ""
 	pan, hung := w.guarded("UndoLastBlock", func() {
 		if !slow {
 			txpool.BlockCommitInProgress(true)
@@ -783,7 +775,6 @@ func (w *World) undoLast(slow bool) bool {
 		txpool.BlockCommitInProgress(false)
 	})
 	w.inCommit = false
-	w.confKey = ""
 	if !hung && pan == "" {
 		w.flushPend()
 		w.mustOK("flag 0")
@@ -1450,33 +1441,12 @@ func (w *World) verify() {
 	w.r.Eval("state:"+bucket(len(txpool.TransactionsToSend))+"-txs", rd["P"]+"#"+rd["R"])
 }
 
-// confirmedSet returns the node's confirmed unspent outputs ("txid:vout" -> value) and the set of txids that
-// have one, read from the UTXO db itself. The db only changes when a block is connected or disconnected, so the
-// dump is kept until the db's own last-block marker (hash, height) or its record count moves.
-func (w *World) confirmedSet() (map[string]uint64, map[string]bool) {
-	db := w.k.Ch.Unspent
-	key := fmt.Sprintf("%x/%d", db.LastBlockHash, db.LastBlockHeight)
-	if w.confKey == key && w.conf != nil {
-		return w.conf, w.confTx
-	}
-	defer prof("verify.utxodump")()
-	conf := map[string]uint64{}
-	confTx := map[string]bool{}
-	for _, l := range chainkit.UtxoDump(db) {
-		f := strings.Fields(l)
-		v, _ := strconv.ParseUint(f[1], 10, 64)
-		conf[f[0]] = v
-		confTx[f[0][:64]] = true
-	}
-	w.conf, w.confTx, w.confKey = conf, confTx, key
-	return conf, confTx
-}
-
 // checkProperty evaluates C12's predicate on the real pool (TxMutex locked).
 func (w *World) checkProperty(listing []*txpool.OneTxToSend, fromRBF bool) {
 	defer prof("verify.checkProperty")()
-	// the node's confirmed unspent set, from the UTXO db itself
-	conf, confTx := w.confirmedSet()
+	// the node's confirmed unspent set: the UTXO db itself, asked output by output (a scan of the whole db - 256 maps made
+	// for 100000 records each - after every block was 40 % of a run's time)
+	db := w.k.Ch.Unspent
 	pool := map[[32]byte]*txpool.OneTxToSend{}
 	for _, t := range txpool.TransactionsToSend {
 		pool[t.Hash.Hash] = t
@@ -1502,9 +1472,13 @@ func (w *World) checkProperty(listing []*txpool.OneTxToSend, fromRBF bool) {
 			if so, ok := txpool.SpentOutputs[ti.Input.UIdx()]; !ok || so != b {
 				w.propFail("spent-index", fmt.Sprintf("SpentOutputs has no/other entry for input %d of %s", i, t.Hash.String()))
 			}
-			key := fmt.Sprintf("%s:%d", hex.EncodeToString(ti.Input.Hash[:]), ti.Input.Vout)
 			par := pool[ti.Input.Hash]
-			cv, isConf := conf[key]
+			var cv uint64
+			po := db.UnspentGet(&ti.Input)
+			isConf := po != nil
+			if isConf {
+				cv = po.Value
+			}
 			mem := t.MemInputs != nil && t.MemInputs[i]
 			switch {
 			case par != nil && int(ti.Input.Vout) < len(par.TxOut):
@@ -1527,7 +1501,7 @@ func (w *World) checkProperty(listing []*txpool.OneTxToSend, fromRBF bool) {
 		if in-out != t.Fee || in != t.Volume {
 			w.propFail("fee-mismatch", fmt.Sprintf("tx %s: recorded Fee %d Volume %d, inputs %d - outputs %d", t.Hash.String(), t.Fee, t.Volume, in, out))
 		}
-		if confTx[hex.EncodeToString(t.Hash.Hash[:])] {
+		if db.TxPresent(&t.Hash) {
 			w.propFail("pooled-confirmed", "pooled tx "+t.Hash.String()+" is already in the chain")
 		}
 		// sizes: recompute from the raw bytes
